@@ -1,10 +1,15 @@
 From Coq Require Import Extraction ExtrOcamlBasic.
 From RU Require Import Base.Prelude Base.Utf8 Model.AsciiSet Gen.Tables Model.PercentEncoding
-  Model.HostT Model.UrlRecord Model.Parser.
+  Model.HostT Model.UrlRecord Model.Parser Model.Setters.
 Extraction Language OCaml.
 Cd "../build/ocaml".
 Extraction "url_model.ml"
   parse_url utf8_encode parse_error_code
   scheme has_authority cannot_be_a_base authority username password has_host host_str host_of domain
-  port_or_known_default path path_segments query fragment is_special.
+  port_or_known_default path path_segments query fragment is_special
+  set_fragment set_query set_path set_port set_host set_ip_host set_password set_username set_scheme
+  path_segments_session position_index index_range index_from index_to
+  q_href q_protocol q_username q_password q_host q_hostname q_port q_pathname q_search q_hash
+  q_set_protocol q_set_username q_set_password q_set_host q_set_hostname q_set_port q_set_pathname
+  q_set_search q_set_hash strip_trailing_spaces_from_opaque_path.
 Cd "../../coq".
